@@ -1744,3 +1744,71 @@ func sameNameCleanupFamily() []*Program {
 	}
 	return out
 }
+
+// namedResultsFamily: injector templates that NAME their results, with names chosen to meet the
+// identifiers wire invents in the body (cleanup, cleanup2, err, the local derived from a type name).
+// The generated injector must behave exactly as with unnamed results (C03, C04, C14).
+func namedResultsFamily() []*Program {
+	var out []*Program
+	names := [][]string{
+		{"app", "cleanup", "err"},
+		{"top", "cleanup2", "err2"},
+		{"conn", "cleanup3", "err"},
+		{"cleanup", "err", "cleanup2"},
+		{"err", "cleanup", "top"},
+		{"_", "_", "_"},
+		{"_", "cleanup", "_"},
+	}
+	for v, ns := range names {
+		b := NewPB(fmt.Sprintf("nres%d", v), "app", "liba")
+		ta, tb, tc := b.Carrier(1, "Conn"), b.Carrier(1, "Cache"), b.Carrier(0, "Queue")
+		top := b.Carrier(0, "Top")
+		fa := b.Func(1, "NewConn", PtrTo(ta), true, false)
+		fb := b.Func(1, "NewCache", PtrTo(tb), true, true, PtrTo(ta))
+		fc := b.Func(0, "NewQueue", PtrTo(tc), true, true, PtrTo(tb))
+		ft := b.Func(0, "NewTop", top, false, true, PtrTo(tc), PtrTo(ta))
+		in := b.Inj("Init", top, true, true, nil, refs(fc, fa, ft, fb)...)
+		in.ResultNames = ns
+		in2 := b.Inj("InitB", PtrTo(tb), true, true, nil, refs(fa, fb)...)
+		_ = in2
+		in3 := b.Inj("InitC", PtrTo(tb), true, true, nil, refs(fa, fb)...)
+		in3.ResultNames = []string{ns[0], ns[1], ns[2]}
+		in4 := b.Inj("InitD", PtrTo(ta), true, false, nil, refs(fa)...)
+		in4.ResultNames = []string{ns[0], ns[1]}
+		cell := fmt.Sprintf("named-results/%s,%s,%s", ns[0], ns[1], ns[2])
+		b.P.Note = cell
+		b.P.Feat = map[string]string{"cell": cell}
+		out = append(out, b.P)
+	}
+	return out
+}
+
+// copiedHelperFirstImportFamily: a helper declaration copied from the injector file is the FIRST
+// thing in the generated file that needs an import, the source spells that import under an alias,
+// and the helper has a local / parameter / result / type-switch variable spelled like the name the
+// generated file gives the import. The local must be renamed (or the import), never capture it.
+func copiedHelperFirstImportFamily() []*Program {
+	var out []*Program
+	helpers := []struct{ name, src string }{
+		{"local", "func Describe() string {\n\tfilepath := struct{ Name string }{\"local\"}\n\treturn filepath.Name + \"/\" + fp.Base(\"a/b\")\n}\n"},
+		{"param", "func Describe(filepath string) string {\n\treturn filepath + \"/\" + fp.Base(\"a/b\")\n}\n"},
+		{"result", "func Describe() (filepath string) {\n\tfilepath = fp.Base(\"a/b\")\n\treturn\n}\n"},
+		{"guard", "func Describe(v interface{}) string {\n\tswitch filepath := v.(type) {\n\tcase string:\n\t\treturn filepath + fp.Base(\"a/b\")\n\tcase int:\n\t\treturn fp.Base(\"c/d\") + string(rune('0'+filepath))\n\t}\n\treturn \"\"\n}\n"},
+		{"closure", "var Describe = func() string {\n\tfilepath := []string{\"x\"}\n\treturn func() string { return filepath[0] + fp.Base(\"a/b\") }()\n}\n"},
+		{"control-registered-earlier", "var _ = fp.Base\n\nfunc Describe() string {\n\tfilepath := struct{ Name string }{\"local\"}\n\treturn filepath.Name + \"/\" + fp.Base(\"a/b\")\n}\n"},
+	}
+	for v, h := range helpers {
+		b := NewPB(fmt.Sprintf("chfi%d", v), "app")
+		dep, top := b.Carrier(0, "Dep"), b.Carrier(0, "Top")
+		nd := b.Func(0, "NewDep", dep, false, false)
+		nt := b.Func(0, "NewTop", top, false, false, dep)
+		b.Inj("Init", top, false, false, nil, refs(nd, nt)...)
+		b.P.InjImports = map[string]string{"path/filepath": "fp"}
+		b.P.InjRaw = h.src
+		cell := "copied-helper-first-needs-aliased-import/collider=" + h.name
+		b.P.Note = cell
+		b.P.Feat = map[string]string{"cell": cell}
+		out = append(out, b.P)
+	}
+	return out
+}
